@@ -31,7 +31,7 @@ func TestC15(t *testing.T) {
 		r.Assume("the reference model (Go map; batch = ordered op list applied at Write; snapshot/iterator = copy at creation; NewIterator(prefix, withUpperBound) = lower bound prefix, upper bound = successor prefix only when requested) is the intended contract; where Juno's backends disagree with each other the model follows Pebble, the production backend")
 		r.Assume("iterator calls outside the documented contract are not generated: Next/Prev on an iterator invalidated by Prev-at-first, Prev after Next was called on an exhausted iterator, Key/Value on an invalid iterator, any use after Close; stores are not used after Close except to check that calls fail")
 		r.Assume("concurrent part: one writer; the logical clock is an atomic counter read before and after every call; iterators and snapshots are treated as point-in-time views taken during NewIterator/NewSnapshot")
-		r.Assume("pebble memtable flushes are forced through Impl() in a third of the sequences, and those sequences never use the empty key (pebble v2.1.6 panics on a background goroutine when flushing a memtable whose only user key is empty)")
+		r.Assume("pebble memtable flushes are forced through Impl() in a third of the sequences of the plain binary only, and those sequences never use the empty key (pebble v2.1.6 panics on a background goroutine when flushing a memtable whose only user key is empty; under the race build tag pebble v2 runs in its internal invariants test mode, where forced flushes gave wrong reads)")
 		r.Finish(ruleText, 100)
 	}
 	finish()
